@@ -420,6 +420,7 @@ def run(repo, rep, tier):
                                     c.lineno, 'building this message raises '
                                     'instead of the intended error: ' + pr)
             r7.functions.add(f.fq)
+    _r8_optional_attrs(repo, rep)
     # ---- R6b: saved parser state is restored on every normal return --------
     # (a nested compile - compile_embedded_value inside an instance
     # declaration - runs in the middle of an outer compile that keeps using
@@ -555,3 +556,90 @@ def run(repo, rep, tier):
                         'after a failed compile the same MOFCompiler keeps '
                         'the stale value' % (a, norm(n.value),
                                              defaults.get(a)))
+
+
+def _r8_optional_attrs(repo, rep):
+    """C09.R8: attributes of the MOF error classes that come from an optional
+    constructor parameter (default None) are not dereferenced without a None
+    test while some raise site omits the parameter: building the error
+    message would raise AttributeError instead of the MOFCompileError."""
+    from ..cfg import stmt_facts
+    r8 = rep.rule('C09.R8', 'optional attributes of the MOF error classes are '
+                  'tested before they are dereferenced')
+    mod = repo.module(MOF)
+    for cls in mod.classes.values():
+        if not (cls.name.startswith('MOF') and cls.name.endswith('Error')):
+            continue
+        init = cls.methods.get('__init__')
+        if init is None:
+            continue
+        dfl = init.param_defaults()
+        opt = {}          # attribute (private and public name) -> param
+        for n in walk_no_nested(init.node):
+            if isinstance(n, ast.Assign) and len(n.targets) == 1 and \
+                    isinstance(n.targets[0], ast.Attribute) and \
+                    norm(n.targets[0].value) == 'self' and \
+                    isinstance(n.value, ast.Name) and \
+                    isinstance(dfl.get(n.value.id), ast.Constant) and \
+                    dfl[n.value.id].value is None:
+                a = n.targets[0].attr
+                opt[a] = n.value.id
+                opt[a.lstrip('_')] = n.value.id
+        if not opt:
+            continue
+        # does some construction site leave the parameter out?
+        params = [p_ for p_ in init.params if p_ != 'self']
+        omitted = {}
+        for f in mod.all_funcs():
+            for c in walk_no_nested(f.node):
+                if isinstance(c, ast.Call) and dotted(c.func) == cls.name:
+                    given = set(params[:len(c.args)]) | {
+                        k.arg for k in c.keywords
+                        if not (isinstance(k.value, ast.Constant) and
+                                k.value.value is None)}
+                    for prm in set(opt.values()):
+                        if prm not in given:
+                            omitted.setdefault(prm, []).append(
+                                '%s:%d' % (f.qualname, c.lineno))
+        for m in list(cls.methods.values()) + list(cls.getters.values()):
+            facts = stmt_facts(m.node)
+            for st, (fs, _) in facts.items():
+                if isinstance(st, (ast.If, ast.For, ast.While, ast.Try,
+                                   ast.With)):
+                    exprs = [st.test] if hasattr(st, 'test') else []
+                else:
+                    exprs = [st]
+                for e in exprs:
+                    for x in ast.walk(e):
+                        if not (isinstance(x, (ast.Attribute, ast.Subscript))
+                                and isinstance(x.value, ast.Attribute) and
+                                norm(x.value.value) == 'self' and
+                                x.value.attr in opt):
+                            continue
+                        attr = x.value.attr
+                        prm = opt[attr]
+                        r8.sites += 1
+                        r8.functions.add(m.fq)
+                        base = norm(x.value)
+                        guarded = any(
+                            (pol and norm(t) in (base, base +
+                                                 ' is not None')) or
+                            ((not pol) and norm(t) in (base + ' is None',
+                                                       'not ' + base))
+                            for t, pol in fs)
+                        ok = guarded or prm not in omitted
+                        r8.ob(ok, '%s|%s' % (m.qualname, norm(x, 50)),
+                              {'use': norm(x, 60), 'parameter': prm,
+                               'omitted_at': omitted.get(prm, [])[:2],
+                               'guarded': guarded})
+                        if not ok:
+                            rep.finding(
+                                r8, m.qualname, norm(x, 60), 'none-deref',
+                                MOF, x.lineno,
+                                '%s is None when the error is raised without '
+                                '%s= (e.g. at %s); %s then raises '
+                                'AttributeError/TypeError while the message '
+                                'of the MOFCompileError is built - '
+                                'compile_string() calls get_err_msg() in its '
+                                'handler, so that exception escapes instead'
+                                % (base, prm, omitted[prm][0], norm(x, 40)))
